@@ -172,3 +172,64 @@ theorem cancelled_mono {cfg : Cfg} {s s' : PState} (h : Step cfg s s') (hc : s.c
     cases waitStep_cases hw <;> (rename_i e; subst e; first | exact hc | rfl)
 
 end Hms.Conc
+
+namespace Hms.Conc
+
+/-- The cores `Wait` is still going to poll in its current pass. -/
+def snapshotOf : WaitPc → List Nat
+  | .scan r => r
+  | .rmWantLock c _ r => c :: r
+  | .rmWantRLock r => r
+  | _ => []
+
+/-- A core blocked in its send that is neither listed nor in `Wait`'s snapshot stays blocked,
+whatever happens next (any configuration that shortens the list under the lock). -/
+theorem sending_unlisted_stuck {cfg : Cfg} (hst : cfg.staleFilter = false) {s s' : PState} (h : Step cfg s s')
+    (c : Nat) (sg : Sig) (hc : s.core c = .sending sg) (hl : c ∉ s.listed) (hs : c ∉ snapshotOf s.wait)
+    (hn : c < s.n) :
+    s'.core c = .sending sg ∧ c ∉ s'.listed ∧ c ∉ snapshotOf s'.wait ∧ c < s'.n := by
+  cases h with
+  | hostSpawn _ => simp only [PState.spawn, upd]; grind
+  | coreSpawn _ _ _ => simp only [PState.spawn, upd]; grind
+  | hostCancel => exact ⟨hc, hl, hs, hn⟩
+  | coreFinish d _ hd _ => simp only [upd]; grind
+  | gRLock d hd _ => simp only [upd]; grind
+  | gRUnlock d hd => simp only [upd]; grind
+  | gLock d hd _ _ => simp only [upd]; grind
+  | gWrite _ _ => exact ⟨hc, hl, hs, hn⟩
+  | gUnlock d hd => simp only [upd]; grind
+  | waitStart _ => exact ⟨hc, hl, by simp [snapshotOf], hn⟩
+  | wait =>
+    rename_i hw
+    cases waitStep_cases hw with
+    | top h e => subst e; simp only [snapshotOf]; grind
+    | sleeping h e => subst e; simp only [snapshotOf]; grind
+    | retNone h hl' e => subst e; simp only [snapshotOf]; grind
+    | toSleep h hl' e => subst e; simp only [snapshotOf]; grind
+    | recvNil d r h hd e => subst e; rw [h] at hs; simp only [snapshotOf, upd] at hs ⊢; grind
+    | recvIntr d r i h hd e => subst e; rw [h] at hs; simp only [snapshotOf, upd] at hs ⊢; grind
+    | skip d r h h1 h2 e => subst e; rw [h] at hs; simp only [snapshotOf] at hs ⊢; grind
+    | remove d st r h hl' e => subst e; rw [h] at hs; simp only [snapshotOf, hst] at hs ⊢; grind
+    | relock r h e => subst e; rw [h] at hs; simp only [snapshotOf] at hs ⊢; grind
+    | cancel d i h hl' e => subst e; simp only [snapshotOf]; grind
+
+end Hms.Conc
+
+namespace Hms.Conc
+
+/-- Zero or more transitions. -/
+inductive Steps (cfg : Cfg) : PState → PState → Prop where
+  | refl (s : PState) : Steps cfg s s
+  | tail (s s' s'' : PState) : Steps cfg s s' → Step cfg s' s'' → Steps cfg s s''
+
+theorem sending_unlisted_stuck_forever {cfg : Cfg} (hst : cfg.staleFilter = false) {s s' : PState}
+    (h : Steps cfg s s') (c : Nat) (sg : Sig) (hc : s.core c = .sending sg) (hl : c ∉ s.listed)
+    (hs : c ∉ snapshotOf s.wait) (hn : c < s.n) : s'.core c = .sending sg := by
+  suffices s'.core c = .sending sg ∧ c ∉ s'.listed ∧ c ∉ snapshotOf s'.wait ∧ c < s'.n from this.1
+  induction h with
+  | refl => exact ⟨hc, hl, hs, hn⟩
+  | tail s' s'' _ hstep ih =>
+    obtain ⟨h1, h2, h3, h4⟩ := ih
+    exact sending_unlisted_stuck hst hstep c sg h1 h2 h3 h4
+
+end Hms.Conc
